@@ -36,8 +36,22 @@ func init() {
 }
 
 type Fault struct {
-	At   int    `json:"at"`   // index of the API call within the reconcile (0-based)
-	Kind string `json:"kind"` // 500 | conflict | notfound | exists | invalid | timeout | timeout_applied
+	At   *int   `json:"at,omitempty"` // index of the API call within the reconcile (0-based)
+	On   string `json:"on,omitempty"` // or: shape of the call, "verb resource name"; fires once
+	Kind string `json:"kind"`         // 500 | conflict | notfound | exists | invalid | timeout | timeout_applied
+}
+
+// shape mirrors shape_of in World.v
+func shape(c *Call) string {
+	switch {
+	case c.Verb == "list":
+		return "list controllerrevisions " + c.Sel
+	case c.Verb == "get" && c.Res == "statefulsets":
+		return "get statefulsets"
+	case c.Verb == "update" && c.Res == "statefulsets":
+		return "update statefulsets/status"
+	}
+	return c.Verb + " " + c.Res + " " + c.Name
 }
 
 type Op struct {
@@ -91,7 +105,7 @@ type env struct {
 	ctrl    *statefulset.StatefulSetController
 	log     []Call
 	n       int
-	faults  map[int]string
+	faults  []Fault
 	record  bool
 	inReact bool
 }
@@ -318,7 +332,14 @@ func (e *env) react(a clienttesting.Action, tracker clienttesting.ObjectTracker)
 	idx := e.n
 	e.n++
 	c := e.abstract(a)
-	kind, faulty := e.faults[idx]
+	kind, faulty := "", false
+	for i, f := range e.faults {
+		if (f.At != nil && *f.At == idx) || (f.At == nil && f.On == shape(&c)) {
+			kind, faulty = f.Kind, true
+			e.faults = append(append([]Fault{}, e.faults[:i]...), e.faults[i+1:]...)
+			break
+		}
+	}
 	if faulty {
 		c.Fault = kind
 		var ret runtime.Object
@@ -384,6 +405,10 @@ func (e *env) apply(a clienttesting.Action, tracker clienttesting.ObjectTracker)
 				return true, nil, err
 			}
 			p := obj.(*v1.Pod).DeepCopy()
+			if p.Status.Phase == v1.PodFailed || p.Status.Phase == v1.PodSucceeded {
+				// pods in a terminal phase are deleted without a grace period
+				return true, nil, tracker.Delete(podGVR, ns, x.GetName())
+			}
 			if p.DeletionTimestamp == nil {
 				t := metav1.NewTime(epoch.Add(2 * 3600e9))
 				p.DeletionTimestamp = &t
@@ -394,11 +419,16 @@ func (e *env) apply(a clienttesting.Action, tracker clienttesting.ObjectTracker)
 			return true, nil, nil
 		}
 	}
-	return clienttesting.ObjectReaction(tracker)(a)
+	handled, ret, err := clienttesting.ObjectReaction(tracker)(a)
+	// a real API server returns lists in key (name) order; the tracker iterates a map
+	if rl, ok := ret.(*kubeapps.ControllerRevisionList); ok && err == nil {
+		sort.Slice(rl.Items, func(i, j int) bool { return rl.Items[i].Name < rl.Items[j].Name })
+	}
+	return handled, ret, err
 }
 
 func newEnv(sc *Scenario) *env {
-	e := &env{sc: sc, faults: map[int]string{}}
+	e := &env{sc: sc}
 	e.base = sc.Cache.Set
 	if e.base == nil {
 		e.base = sc.API.Set
@@ -449,7 +479,9 @@ func newEnv(sc *Scenario) *env {
 	return e
 }
 
-func (e *env) setIndexer() cache.Indexer { return e.ainf.Apps().V1().StatefulSets().Informer().GetIndexer() }
+func (e *env) setIndexer() cache.Indexer {
+	return e.ainf.Apps().V1().StatefulSets().Informer().GetIndexer()
+}
 func (e *env) podIndexer() cache.Indexer { return e.kinf.Core().V1().Pods().Informer().GetIndexer() }
 func (e *env) pvcIndexer() cache.Indexer {
 	return e.kinf.Core().V1().PersistentVolumeClaims().Informer().GetIndexer()
@@ -501,10 +533,7 @@ func cacheEqual(e *env, before []interface{}) bool {
 }
 
 func (e *env) reconcile(faults []Fault, viaWorker bool) ReconcileObs {
-	e.faults = map[int]string{}
-	for _, f := range faults {
-		e.faults[f.At] = f.Kind
-	}
+	e.faults = append([]Fault{}, faults...)
 	e.log = nil
 	e.n = 0
 	key := ns + "/" + e.base.Name
